@@ -54,6 +54,20 @@ CHECKS = {
         note="Bounded by the template catalogue (numeric rules at top level, nested 1-2 deep, via alias, via imported file; value-independent rules as concrete templates, marked so). CLI exit status / absence of output files are observed only when replaying violations.",
         design="6/C08",
     ),
+    "C09": dict(
+        category="other",
+        technique="bounded symbolic execution (all paths) of real parser+linter+renderers over templates and token-level mutations; z3 regex inclusion for lexer rules; CrossHair on the escape loop",
+        text="Kernel of totality: (a) every C08 template and constant-expression shape is explored along all paths for all values of its numeric holes, then linted and rendered by the real C/Go/Python renderers on accepting paths; (c) single token-level mutations (insert/replace/delete/truncate at every position over a 49-entry vocabulary with symbolic integer literals and widths) of four base schemas (thorough: pairs, free sequences); (d) edge-shaped schemas rendered for all values of their constants; (b) z3 proves by regex inclusion that every text a lexer rule can match satisfies its action's precondition, CrossHair confirms the escape loop. Only ParserError/OSError/RendererError may end a path; anything else is replayed through the real CLI (traceback) first.",
+        note="Kernel only: arbitrary text (byte-level mutations) is outside (lexing is C code); token types and positions are enumerated, numeric values are the solver's; never-hangs is bounded by per-run budgets. Known finding D3 (empty enum as Python field).",
+        design="6/C09",
+    ),
+    "C13": dict(
+        category="other",
+        technique="symbolic execution of real parser+renderers on expression templates (z3 Int): value term == independent evaluation, emitted literal term == value; CrossHair for string emission",
+        text="All constant-expression shapes with <= 3 operators (flat and every parenthesisation; decimal/hex/referenced/imported operands, symbolic values) go through the real lexer+parser; z3 proves the constant's value equals an independent precedence-climbing evaluation, that the same term arrives as array capacity and max_bytes, and that the literal the real C/Go/Python renderers emit is the constant's own term; booleans by a literal table; strings by CrossHair over the real escape loop and format_str_value with a reference literal decoder.",
+        note="`/` asserted where dividend >= 0 and divisor > 0; string bounds 3-5 characters over printable ASCII + tab/CR/LF; decimal rendering itself is Python's str(int).",
+        design="6/C13",
+    ),
 }
 
 NOT_APPLICABLE = {
@@ -97,7 +111,7 @@ def main():
             "add_only": True,
         },
         "engines": [
-            {"name": "pysym", "path": "vlib/pysym.py", "serves_properties": ["C01", "C02", "C05", "C07", "C08", "C12", "C14"], "kind_free_text": "DART-style symbolic execution of the real Python sources with z3 proxies (BV-192 / Int)"},
+            {"name": "pysym", "path": "vlib/pysym.py", "serves_properties": ["C01", "C02", "C05", "C07", "C08", "C09", "C12", "C13", "C14"], "kind_free_text": "DART-style symbolic execution of the real Python sources with z3 proxies (BV-192 / Int)"},
         ],
         "checks": checks,
         "not_applicable": na,
